@@ -529,16 +529,22 @@ def FlowState.run (s : FlowState F) : List Round → R (FlowState F)
 /-! ### driver line protocol (component `agg`, stateful)
 
   agg new <maxSamples> <maxFlows>                → ok
-  agg round <largestTtl> <T|L> <slots|->         → brief dump (default flow + the round's flow)
+  agg round <largestTtl> <T|L> <slots|->         → brief dump (default flow + the round's flow,
+                                                   the latter's hops only now and then)
       slots = `;`-separated, in the format of `TV.Strat.showSlot`
   agg dump                                       → full dump (every flow, whole registry)
   agg get <flow> <hops|target|round|count>       → the getter's value, or `panic`
 
 Dump format (one line): flows separated by ` | `, inside a flow the header and the hops separated
 by ` ; `, inside a hop space separated `name=value` tokens.  Float-valued tokens: `javg= jinta=
-mean= m2= loss= floss= bloss= avg= sd=` (printed exactly, as `<decimal digits>e<exponent>`);
-float-derived durations: `jitter= jmax=`.
+loss= floss= bloss= avg= sd=` (printed exactly, as `<decimal digits>e<exponent>`; the real `Hop` has
+no getter for `mean`/`m2`, `sd=` is `stddev_ms()`); float-derived durations: `jitter= jmax=`.
 -/
+
+/-- number of trailing zero bits of `m` (at most `fuel`) -/
+def trailingZeros (m : Nat) : Nat → Nat
+  | 0 => 0
+  | fuel + 1 => if m % 2 = 0 ∧ m ≠ 0 then 1 + trailingZeros (m / 2) fuel else 0
 
 /-- exact decimal rendering of a double: `<digits>e<exp>` -/
 def showFloat (x : Float) : String :=
@@ -549,7 +555,12 @@ def showFloat (x : Float) : String :=
   if m = 0 then sign ++ "0e0" else
   match e with
   | .ofNat k => sign ++ toString (m * 2 ^ k) ++ "e0"
-  | .negSucc k => sign ++ toString (m * 5 ^ (k + 1)) ++ "e-" ++ toString (k + 1)
+  | .negSucc k =>
+    -- strip common factors of two first (shorter text, same value)
+    let z := Nat.min (k + 1) (trailingZeros m 64)
+    let m := m / 2 ^ z
+    let k := k + 1 - z
+    if k = 0 then sign ++ toString m ++ "e0" else sign ++ toString (m * 5 ^ k) ++ "e-" ++ toString k
 
 def showNat? : Option Nat → String
   | none => "-"
@@ -572,8 +583,8 @@ def showHop (full : Bool) (fs : FlowState Float) (h : Hop Float) : String :=
     s!"fw={h.totalForwardLost}", s!"bw={h.totalBackwardLost}", s!"tt={h.totalTime}",
     s!"l={showNat? h.last}", s!"b={showNat? h.best}", s!"w={showNat? h.worst}",
     s!"jitter={showNat? h.jitter}", s!"jmax={showNat? h.jmax}",
-    s!"javg={showFloat h.javg}", s!"jinta={showFloat h.jinta}", s!"mean={showFloat h.mean}",
-    s!"m2={showFloat h.m2}", s!"loss={showFloat h.lossPct}", s!"floss={showFloat h.forwardLossPct}",
+    s!"javg={showFloat h.javg}", s!"jinta={showFloat h.jinta}",
+    s!"loss={showFloat h.lossPct}", s!"floss={showFloat h.forwardLossPct}",
     s!"bloss={showFloat h.backwardLossPct}", s!"avg={showFloat h.avgMs}", s!"sd={showFloat h.stddevMs}",
     s!"sp={h.lastSrcPort}", s!"dp={h.lastDestPort}", s!"sq={h.lastSequence}",
     s!"k={match h.lastIcmp with | none => "-" | some k => showKind k}",
@@ -588,32 +599,36 @@ def showFlowEntry : FlowEntry → String
 
 def showRegEntry (e : Flow × Nat) : String := s!"{e.2}:" ++ showList (e.1.map showFlowEntry)
 
-/-- one flow of the dump; `none` if a getter panics -/
-def showFlowState (full : Bool) (st : State Float) (id : Nat) : Option String :=
+/-- one flow of the dump; `none` if a getter panics.
+`mode`: 0 = header only, 1 = hops with abbreviated samples, 2 = everything -/
+def showFlowState (mode : Nat) (st : State Float) (id : Nat) : Option String :=
   match st.flowR id, st.hopsForFlow id, st.targetHop id, st.round id, st.roundCount id with
   | .ok fs, .ok hops, .ok tgt, .ok round, .ok count =>
     some (String.intercalate " ; "
       (s!"flow {id} rounds={count} round={showNat? round} target={tgt.ttl}:{tgt.totalSent}:{tgt.totalRecv} nhops={hops.length}"
-        :: hops.map (showHop full fs)))
+        :: (if mode = 0 then [] else hops.map (showHop (mode = 2) fs))))
   | _, _, _, _, _ => none
 
 def joinFlows (parts : List (Option String)) (tail : List String) : String :=
   if parts.any Option.isNone then "panic"
   else String.intercalate " | " (parts.filterMap id ++ tail)
 
-/-- answer to `round` -/
+/-- answer to `round`: the default flow, and the round's own flow (its hops only when its round
+count is ≤ 2 or a multiple of 8; `dump` shows everything) -/
 def showBrief (st : State Float) : String :=
-  let ids := if st.roundFlowId = defaultFlowId then [defaultFlowId] else [defaultFlowId, st.roundFlowId]
+  let own := if st.roundFlowId = defaultFlowId then [] else
+    let n := match st.roundCount st.roundFlowId with | .ok n => n | _ => 0
+    [showFlowState (if n ≤ 2 ∨ n % 8 = 0 then 1 else 0) st st.roundFlowId]
   let reg := match st.registry.flows.find? (fun e => e.2 = st.roundFlowId) with
     | some e => showRegEntry e
     | none => "-"
-  joinFlows (ids.map (showFlowState false st))
+  joinFlows (showFlowState 1 st defaultFlowId :: own)
     [s!"rfid={st.roundFlowId} nreg={st.registry.flows.length} reg={reg}"]
 
 /-- answer to `dump` -/
 def showFull (st : State Float) : String :=
   let ids := defaultFlowId :: st.registry.flows.map (·.2)
-  joinFlows (ids.map (showFlowState true st))
+  joinFlows (ids.map (showFlowState 2 st))
     [s!"rfid={st.roundFlowId}",
      "reg=" ++ (if st.registry.flows.isEmpty then "-"
                 else String.intercalate ";" (st.registry.flows.map showRegEntry))]
